@@ -184,6 +184,18 @@ def gen_fields(rng, nmin=1, nmax=9, allow_repeat=False):
     names = rng.sample(FIELD_POOL, n)
     if allow_repeat and n >= 2 and rng.random() < 0.3:
         names[rng.randrange(1, n)] = names[0]
+    if allow_repeat and n >= 3 and rng.random() < 0.35:
+        # repeats together with a literal name equal to a generated key (x, x_2, x)
+        base = names[0]
+        pos = sorted(rng.sample(range(1, n), 2))
+        if rng.random() < 0.5:
+            names[pos[0]] = base + '_2'
+            names[pos[1]] = base
+        else:
+            names[pos[0]] = base
+            names[pos[1]] = base + '_2'
+        if n >= 4 and rng.random() < 0.5:
+            names[rng.choice([k for k in range(1, n) if k not in pos])] = base
     return names
 
 
